@@ -82,7 +82,12 @@ type result struct {
 var fams = []string{"p256", "p384", "p521", "ed25519", "rsa"}
 
 const (
-	legitDID    = "did:web:legit.example"
+	legitDID    = "did:web:example.com:iam:123"
+	extDID      = "did:web:example.com:iam:1234" // hostile party whose DID EXTENDS the legitimate DID as a string
+	preDID      = "did:web:example.com:iam:12"   // hostile party whose DID is a proper PREFIX of the legitimate DID
+	nutsLegit   = "did:nuts:Legit123"
+	nutsExt     = "did:nuts:Legit1234"
+	nutsPre     = "did:nuts:Legit12"
 	otherDID    = "did:web:other.example"
 	attackerDID = "did:web:attacker.example"
 	subjectDID  = "did:web:subject.example"
@@ -97,6 +102,8 @@ type world struct {
 	legit    map[string]txforge.AnyKey
 	other    map[string]txforge.AnyKey
 	attacker map[string]txforge.AnyKey
+	ext      map[string]txforge.AnyKey
+	pre      map[string]txforge.AnyKey
 	docs     map[string]*did.Document
 	verifier verifier.Verifier
 	jsonld   jsonld.JSONLD
@@ -159,6 +166,9 @@ func (f fakeIAMClient) OpenIDConfiguration(_ context.Context, issuer string) (*o
 
 func kidOf(d, fam string) string { return d + "#" + fam }
 
+// fragKid: a key id of the attacker whose fragment is the legitimate key id
+func fragKid(fam string) string { return attackerDID + "#" + legitDID + "-" + fam }
+
 func buildDoc(d string, keys map[string]txforge.AnyKey) *did.Document {
 	id := did.MustParseDID(d)
 	doc := &did.Document{ID: id, Context: []interface{}{did.DIDContextV1URI()}}
@@ -188,13 +198,30 @@ func authorizedLine(k txforge.AnyKey, user string) string {
 
 func newWorld(t *testing.T) *world {
 	w := &world{t: t, legit: map[string]txforge.AnyKey{}, other: map[string]txforge.AnyKey{}, attacker: map[string]txforge.AnyKey{},
+		ext: map[string]txforge.AnyKey{}, pre: map[string]txforge.AnyKey{},
 		docs: map[string]*did.Document{}, certs: map[string]string{}, ldCache: map[string]*ldBase{}}
 	for _, f := range fams {
 		w.legit[f], w.other[f], w.attacker[f] = txforge.NewAnyKey(f), txforge.NewAnyKey(f), txforge.NewAnyKey(f)
+		if f == "rsa" { // RSA key generation is slow; the lookalike parties share the attacker's RSA key
+			w.ext[f], w.pre[f] = w.attacker[f], w.attacker[f]
+		} else {
+			w.ext[f], w.pre[f] = txforge.NewAnyKey(f), txforge.NewAnyKey(f)
+		}
 	}
 	w.docs[legitDID] = buildDoc(legitDID, w.legit)
 	w.docs[otherDID] = buildDoc(otherDID, w.other)
 	w.docs[attackerDID] = buildDoc(attackerDID, w.attacker)
+	w.docs[extDID] = buildDoc(extDID, w.ext)
+	w.docs[preDID] = buildDoc(preDID, w.pre)
+	// the attacker also publishes its keys under fragments that CONTAIN the legitimate DID
+	for _, f := range fams {
+		vm, err := did.NewVerificationMethod(did.MustParseDIDURL(fragKid(f)), ssi.JsonWebKey2020, did.MustParseDID(attackerDID), w.attacker[f].Public())
+		if err != nil {
+			t.Fatal(err)
+		}
+		w.docs[attackerDID].AddAssertionMethod(vm)
+		w.docs[attackerDID].AddAuthenticationMethod(vm)
+	}
 	w.docs[subjectDID] = buildDoc(subjectDID, w.other)
 	didResolver := scriptedDIDResolver{w.docs}
 	keyResolver := resolver.DIDKeyResolver{Resolver: didResolver}
@@ -256,6 +283,18 @@ type base struct {
 	otherKid string // key id of another (honest) party known to the consumer
 	attKid   string // key id under which the attacker's own key is known to the consumer ("" = unknown)
 	padPayload func(n int) []byte // payload with n semantically irrelevant extra bytes (nil = not possible)
+	// hostile parties whose key id resembles the legitimate one (ext: DID extends the legitimate DID as a string, pre: DID is a
+	// proper prefix of it, frag: the fragment contains the legitimate DID); all are resolvable by the consumer
+	look map[string]lookalike
+}
+
+type lookalike struct {
+	kid string
+	key txforge.AnyKey
+}
+
+func (w *world) didLookalikes(fam string) map[string]lookalike {
+	return map[string]lookalike{"ext": {kidOf(extDID, fam), w.ext[fam]}, "pre": {kidOf(preDID, fam), w.pre[fam]}, "frag": {fragKid(fam), w.attacker[fam]}}
 }
 
 func algFor(consumer string, k txforge.AnyKey) string {
@@ -292,6 +331,7 @@ func (w *world) baseFor(consumer, fam string) (*base, error) {
 		b.hdr = map[string]any{"alg": b.alg, "typ": "JWT", "kid": kidOf(legitDID, fam)}
 		b.padPayload = jsonPad(claims)
 		b.otherKid, b.attKid = kidOf(otherDID, fam), kidOf(attackerDID, fam)
+		b.look = w.didLookalikes(fam)
 	case "vpjwt":
 		claims := map[string]any{"iss": legitDID, "sub": legitDID, "jti": legitDID + "#vp-" + uuid4(), "nbf": now - 60, "exp": now + 3600,
 			"aud": "did:web:verifier.example", "nonce": uuid4(),
@@ -299,12 +339,14 @@ func (w *world) baseFor(consumer, fam string) (*base, error) {
 		b.hdr = map[string]any{"alg": b.alg, "typ": "JWT", "kid": kidOf(legitDID, fam)}
 		b.padPayload = jsonPad(claims)
 		b.otherKid, b.attKid = kidOf(otherDID, fam), kidOf(attackerDID, fam)
+		b.look = w.didLookalikes(fam)
 	case "jar":
 		claims := map[string]any{"iss": legitDID, "client_id": clientID, "aud": "https://node.example/oauth2/verifier", "response_type": "code",
 			"scope": "test", "state": uuid4(), "nonce": uuid4(), "iat": now - 60, "exp": now + 600}
 		b.hdr = map[string]any{"alg": b.alg, "typ": "JWT", "kid": kidOf(legitDID, fam)}
 		b.padPayload = jsonPad(claims)
 		b.otherKid, b.attKid = kidOf(otherDID, fam), kidOf(attackerDID, fam)
+		b.look = w.didLookalikes(fam)
 	case "dpop":
 		claims := map[string]any{"htm": "POST", "htu": "https://node.example/oauth2/verifier/token", "jti": uuid4(), "iat": now - 5}
 		jw := b.legit.PublicJWK()
@@ -325,8 +367,10 @@ func (w *world) baseFor(consumer, fam string) (*base, error) {
 			b.hdr["jwk"] = b.legit.PublicJWK()
 			b.kidName, b.hasJWK = "", true
 		} else {
-			b.hdr["kid"] = kidOf("did:nuts:legit", fam)
+			b.hdr["kid"] = kidOf(nutsLegit, fam)
 			b.otherKid, b.attKid = kidOf("did:nuts:other", fam), kidOf("did:nuts:attacker", fam)
+			b.look = map[string]lookalike{"ext": {kidOf(nutsExt, fam), w.ext[fam]}, "pre": {kidOf(nutsPre, fam), w.pre[fam]},
+				"frag": {"did:nuts:attacker#" + nutsLegit + "-" + fam, w.attacker[fam]}}
 		}
 	case "ldproof":
 		lb, err := w.ldBaseFor(fam)
@@ -337,6 +381,7 @@ func (w *world) baseFor(consumer, fam string) (*base, error) {
 		b.payload = lb.tbs
 		b.detached = true
 		b.kidName = "" // the key id is proof.verificationMethod, which is part of the signed data
+		b.look = w.didLookalikes(fam)
 	default:
 		return nil, fmt.Errorf("unknown consumer %s", consumer)
 	}
@@ -372,6 +417,16 @@ func (w *world) ldBaseFor(fam string) (*ldBase, error) {
 	if lb, ok := w.ldCache[fam]; ok {
 		return lb, nil
 	}
+	lb, err := w.ldSign(w.legit[fam], kidOf(legitDID, fam))
+	if err != nil {
+		return nil, err
+	}
+	w.ldCache[fam] = lb
+	return lb, nil
+}
+
+// ldSign issues a credential IN THE NAME OF the legitimate issuer, with a genuine proof made by key under verification method vm.
+func (w *world) ldSign(key txforge.AnyKey, vm string) (*ldBase, error) {
 	doc := proof.Document{
 		"@context":          []any{"https://www.w3.org/2018/credentials/v1"},
 		"type":              []any{"VerifiableCredential"},
@@ -380,18 +435,16 @@ func (w *world) ldBaseFor(fam string) (*ldBase, error) {
 		"issuanceDate":      time.Now().Add(-time.Minute).UTC().Format(time.RFC3339),
 		"credentialSubject": map[string]any{"id": subjectDID},
 	}
-	suite := &captureSuite{JSONWebSignature2020: signature.JSONWebSignature2020{ContextLoader: w.jsonld.DocumentLoader()}, key: w.legit[fam]}
+	suite := &captureSuite{JSONWebSignature2020: signature.JSONWebSignature2020{ContextLoader: w.jsonld.DocumentLoader()}, key: key}
 	ldp := proof.NewLDProof(proof.ProofOptions{Created: time.Now().Add(-time.Minute)})
-	signed, err := ldp.Sign(context.Background(), doc, suite, kidOf(legitDID, fam))
+	signed, err := ldp.Sign(context.Background(), doc, suite, vm)
 	if err != nil {
 		return nil, err
 	}
 	raw, _ := json.Marshal(signed)
 	m := map[string]any{}
 	_ = json.Unmarshal(raw, &m)
-	lb := &ldBase{doc: m, tbs: suite.tbs}
-	w.ldCache[fam] = lb
-	return lb, nil
+	return &ldBase{doc: m, tbs: suite.tbs}, nil
 }
 
 // ------------------------------------------------------------------------------------------------ forging
@@ -402,6 +455,7 @@ type forged struct {
 	// consumers whose signed content is not inside the JWS (JSON-LD): alter the document / key reference instead
 	alterDoc bool
 	vm       string
+	doc      map[string]any // a complete, genuinely signed document to use instead of the valid one
 }
 
 func clone(m map[string]any) map[string]any {
@@ -608,9 +662,27 @@ func (w *world) forge(b *base, variant string) ([]forged, error) {
 			return nil, errNA
 		}
 		return []forged{{name: "kid-of-other-party-old-sig", jws: keepSig(withHdr(func(h map[string]any) { h[b.kidName] = b.otherKid }), b.payload)}}, nil
+	case "kid-lookalike-ext-resigned", "kid-lookalike-pre-resigned", "kid-lookalike-frag-resigned":
+		la, ok := b.look[strings.Split(variant, "-")[2]]
+		if !ok {
+			return nil, errNA
+		}
+		if b.consumer == "ldproof" {
+			lb, err := w.ldSign(la.key, la.kid)
+			if err != nil {
+				return nil, err
+			}
+			return []forged{{name: "genuine-proof-by-" + la.kid, jws: lb.doc["proof"].(map[string]any)["jws"].(string), doc: lb.doc}}, nil
+		}
+		return []forged{{name: "resigned-with-kid-" + la.kid, jws: b.signed(withHdr(func(h map[string]any) { h[b.kidName] = la.kid }), b.payload, la.key, b.alg)}}, nil
 	case "kid-attacker-resigned":
 		if b.consumer == "ldproof" {
-			return []forged{{name: "verificationMethod-of-attacker-resigned", jws: b.signed(b.hdr, b.payload, b.attacker, b.alg), vm: kidOf(attackerDID, b.fam)}}, nil
+			lb, err := w.ldSign(b.attacker, kidOf(attackerDID, b.fam))
+			if err != nil {
+				return nil, err
+			}
+			return []forged{{name: "genuine-proof-by-attacker", jws: lb.doc["proof"].(map[string]any)["jws"].(string), doc: lb.doc},
+				{name: "verificationMethod-of-attacker-old-tbs", jws: b.signed(b.hdr, b.payload, b.attacker, b.alg), vm: kidOf(attackerDID, b.fam)}}, nil
 		}
 		if b.kidName == "" || b.attKid == "" {
 			return nil, errNA
@@ -775,14 +847,20 @@ func (w *world) consume(b *base, f forged) error {
 		}
 		keys := map[string]crypto.PublicKey{}
 		for _, fam := range fams {
-			keys[kidOf("did:nuts:legit", fam)] = w.legit[fam].Public()
+			keys[kidOf(nutsLegit, fam)] = w.legit[fam].Public()
 			keys[kidOf("did:nuts:other", fam)] = w.other[fam].Public()
 			keys[kidOf("did:nuts:attacker", fam)] = w.attacker[fam].Public()
+			keys[kidOf(nutsExt, fam)] = w.ext[fam].Public()
+			keys[kidOf(nutsPre, fam)] = w.pre[fam].Public()
+			keys["did:nuts:attacker#"+nutsLegit+"-"+fam] = w.attacker[fam].Public()
 		}
 		return dag.NewTransactionSignatureVerifier(scriptedNutsResolver{keys})(nil, tx)
 	case "ldproof":
-		lb := w.ldCache[b.fam]
-		raw, _ := json.Marshal(lb.doc)
+		src := w.ldCache[b.fam].doc
+		if f.doc != nil {
+			src = f.doc
+		}
+		raw, _ := json.Marshal(src)
 		doc := map[string]any{}
 		_ = json.Unmarshal(raw, &doc)
 		pr := doc["proof"].(map[string]any)
